@@ -11,11 +11,11 @@ import (
 
 // descend returns the Stack a value lets a path continue into.
 func descend(v any) (stackage.Stack, bool) {
-	if s, ok := stackage.ConvertStack(v); ok {
+	if s, ok := AsStack(v); ok {
 		return s, true
 	}
-	if cnd, ok := stackage.ConvertCondition(v); ok {
-		if s, ok := stackage.ConvertStack(cnd.Expression()); ok {
+	if cnd, ok := AsCond(v); ok {
+		if s, ok := AsStack(cnd.Expression()); ok {
 			return s, true
 		}
 	}
